@@ -153,12 +153,44 @@ type unmGen struct {
 }
 
 // tag expressions: the converted result must be defined for the field type (no float→int of NaN)
-func (u *unmGen) tagFor(kind string) (Expr, string) {
+// intBoundaries: values at the edge of each integer type's range that a double represents exactly
+// (the conversion is defined for them; 2^63 and above only fit the unsigned 64-bit types)
+func intBoundaries(kind string, bits int) []Expr {
+	lit := func(s string) Expr { return NumLit{Text: s} }
+	neg := func(s string) Expr { return Neg{E: NumLit{Text: s}} }
+	if bits == 0 {
+		bits = 64
+	}
+	if kind == "uint" {
+		switch bits {
+		case 8:
+			return []Expr{lit("255"), lit("128")}
+		case 16:
+			return []Expr{lit("65535"), lit("32768")}
+		case 32:
+			return []Expr{lit("4294967295"), lit("2147483648")}
+		}
+		return []Expr{lit("9223372036854775808"), lit("10000000000000000000"), lit("18446744073709549568"), lit("4294967296")}
+	}
+	switch bits {
+	case 8:
+		return []Expr{lit("127"), neg("128"), neg("1")}
+	case 16:
+		return []Expr{lit("32767"), neg("32768")}
+	case 32:
+		return []Expr{lit("2147483647"), neg("2147483648")}
+	}
+	return []Expr{lit("9223372036854774784"), neg("9223372036854775808"), lit("4294967296"), neg("2.5")}
+}
+
+func (u *unmGen) tagFor(kind string, bits int) (Expr, string) {
 	g, r := u.g, u.r
 	var e Expr
 	switch kind {
 	case "int", "uint":
-		switch r.Intn(3) {
+		switch r.Intn(4) {
+		case 3:
+			e = Pick(r, intBoundaries(kind, bits))
 		case 0:
 			e = Call{Base: Ctx{}, Name: "count", Args: []Expr{g.NodeSet(1, true)}}
 		case 1:
@@ -255,7 +287,14 @@ func (u *unmGen) structTy(depth int) TyDesc {
 			if k == "other" {
 				k = "nodes"
 			}
-			f.TagExpr, f.TagText = u.tagFor(k)
+			bits := 0
+			for bt := f.Ty; ; bt = *bt.Elem {
+				if bt.Kind != "ptr" {
+					bits = bt.Bits
+					break
+				}
+			}
+			f.TagExpr, f.TagText = u.tagFor(k, bits)
 			if r.Chance(1, 60) {
 				f.BadTag = true
 				f.TagText = "a[["
@@ -264,6 +303,38 @@ func (u *unmGen) structTy(depth int) TyDesc {
 		t.Fields = append(t.Fields, f)
 	}
 	return t
+}
+
+// prefill writes old values into a zero target (pointers are left alone: see `kept`).
+func prefill(v reflect.Value, r *Rng, depth int) {
+	if depth > 3 || !v.CanSet() {
+		return
+	}
+	switch v.Kind() {
+	case reflect.String:
+		v.SetString("old")
+	case reflect.Bool:
+		v.SetBool(true)
+	case reflect.Int, reflect.Int8, reflect.Int16, reflect.Int32, reflect.Int64:
+		v.SetInt(5)
+	case reflect.Uint, reflect.Uint8, reflect.Uint16, reflect.Uint32, reflect.Uint64:
+		v.SetUint(6)
+	case reflect.Float32, reflect.Float64:
+		v.SetFloat(0.25)
+	case reflect.Slice:
+		n := 1 + r.Intn(2)
+		for i := 0; i < n; i++ {
+			el := reflect.New(v.Type().Elem()).Elem()
+			prefill(el, r, depth+1)
+			v.Set(reflect.Append(v, el))
+		}
+	case reflect.Struct:
+		for i := 0; i < v.NumField(); i++ {
+			if r.Chance(2, 3) {
+				prefill(v.Field(i), r, depth+1)
+			}
+		}
+	}
 }
 
 func GenUnmarshalFamily(w *Writer, r *Rng, t Tier) error {
@@ -347,6 +418,11 @@ func GenUnmarshalFamily(w *Writer, r *Rng, t Tier) error {
 						kept = append(kept, keep{pv, valSexp(pv.Elem())})
 					}
 				}
+			}
+			// a target that was used before: direct fields (and the fields of nested structs, and
+			// slices) already hold values — tagged ones must be replaced, untagged ones kept
+			if cr.Chance(1, 3) {
+				prefill(base, cr, 0)
 			}
 			curSexp := valSexp(base)
 			var target interface{}
